@@ -58,8 +58,8 @@ struct C03 : Harness {
                 for (int c = 0; c < calls; ++c) {
                     size_t n = (size_t)*rc::gen::weightedOneOf<int>({{8, irange(0, 29)}, {1, irange(30, 160)}}) * bs;
                     Op e = mkop(opn(kind, kind == PM ? "crypt" : (*chance(50) ? "enc" : "dec")));
-                    e.set("s", 0).set("in", *gdata(n));
-                    if (kind == PM) e.set("tweak", *gdata(n));
+                    e.set("s", 0).set("in", *gblocks(n, (size_t)bs));
+                    if (kind == PM) e.set("tweak", *gblocks(n, 8));
                     if (*chance(30)) e.set("ip", 1).set("io", *goffset()); else e.set("io", *goffset()).set("oo", *goffset());
                     p.push_back(e);
                 }
@@ -80,7 +80,7 @@ struct C03 : Harness {
                         if (*chance(20)) t.setnull("tweak"); else t.set("tweak", *gbytes(8));
                         t.set("len", 8); p.push_back(t);
                     } else if (w <= 5) p.push_back(mkop(opn(kind, "swap")).set("s", 0));
-                    else if (par) { size_t nb = (size_t)*irange(1, 19) * 8; p.push_back(mkop("pm.crypt").set("s", 0).set("in", *gdata(nb)).set("tweak", *gdata(nb))); }
+                    else if (par) { size_t nb = (size_t)*irange(1, 19) * 8; p.push_back(mkop("pm.crypt").set("s", 0).set("in", *gblocks(nb, 8)).set("tweak", *gblocks(nb, 8))); }
                     else if (w <= 8) p.push_back(mkop("mk.crypt").set("s", 0).set("in", *gbytes(8)));
                     else p.push_back(mkop("mk.crypt_tw").set("s", 0).set("in", *gbytes(8)).set("tweak", *gbytes(8)));
                 }
